@@ -71,7 +71,7 @@ def fam_restart(rnd, i, thorough, damage=False, inbound=False):
         if ops:
             procs["v%d" % (g + 2)] = {"kind": "script", "ops": ops}
         gens.append(procs)
-    b["random"].update({"gens": gens, "pstop": rnd.choice([0.01, 0.03, 0.08]), "max": 600})
+    b["random"].update({"gens": gens, "pstop": rnd.choice([0.01, 0.03]), "pstopio": rnd.choice([0.02, 0.05, 0.1]), "max": 600})
     if damage:
         keys = [0x8000, 0x8001, 0xc000, 0xc001, 0x8002, 0xc002]
         b["random"]["damage"] = [{"env": "damage", "key": rnd.choice(keys), "how": rnd.choice(["flip", "trunc", "remove"])}
@@ -124,13 +124,16 @@ def fam_in(rnd, i, thorough, restart=False):
                         "pstore": 0.05, "pbreak": 0.08, "pstall": 0.15,
                         "inbound": [{"qos": rnd.choice([0, 1, 2, 2, 2]), "tag": 500 + k, "size": rnd.choice([8, 8, 100])}
                                     for k in range(rnd.choice([1, 2, 3, 4, 6]))]})
+    for k, m in enumerate(b["random"]["inbound"]):
+        if k > 0 and rnd.random() < 0.5:
+            m["after"] = True      # identifier reuse: published once the earlier deliveries completed
     if rnd.random() < 0.4:   # messages beyond the read buffer (distinct sizes identify them), read or skipped
         b["cfg"]["readbuf"] = 64
         for k, m in enumerate(b["random"]["inbound"]):
             m["size"] = rnd.choice([8, 40, 70 + 3 * k, 150 + 3 * k])
         b["procs"]["rd"]["big"] = rnd.choice(["read", "skip"])
     if restart:
-        b["random"].update({"gens": [{"rd2": {"kind": "reader"}}], "pstop": 0.03, "pstore": 0.0})
+        b["random"].update({"gens": [{"rd2": {"kind": "reader"}}], "pstop": 0.01, "pstopio": 0.06, "pstore": 0.0})
     return b
 
 
@@ -205,13 +208,16 @@ MC = {
     "req":   dict(script="ScriptReq",   amax=2, emax=2, conns=2, dial=1, write=1, read=0, store=0, calls=4, k_quick=20, k_thorough=2),
     "pings": dict(script="ScriptPings", amax=2, emax=2, conns=2, dial=1, write=1, read=0, store=0, calls=4, k_quick=15, k_thorough=2),
     "reqclose": dict(script="ScriptReqClose", amax=2, emax=2, conns=2, dial=0, write=1, read=0, store=0, calls=3, k_quick=200, k_thorough=25),
+    "in":    dict(script="ScriptNone", inmsgs="In012", amax=2, emax=2, conns=2, dial=0, write=1, read=1, store=1, calls=7, k_quick=5, k_thorough=1),
+    "in22":  dict(script="ScriptNone", inmsgs="In22", amax=2, emax=2, conns=3, dial=0, write=1, read=1, store=1, calls=7, k_quick=30, k_thorough=3),
     "mixreq": dict(script="ScriptMixReq", amax=2, emax=2, conns=2, dial=1, write=1, read=0, store=0, calls=4, k_quick=25, k_thorough=3),
 }
 MC_FOR = {
     "C01": ["one", "q2"], "C03": ["q2"], "C05": ["two"], "C10": ["one", "mixreq"], "C12": ["close", "reqclose"], "C17": ["max1", "one"],
     "C18": ["one", "req"], "C14": ["req", "close"], "C08": ["mixreq", "two"], "C11": ["req", "pings"],
+    "C04": ["in22", "in"], "C07": ["in", "in22"], "C13": ["in"],
 }
-INVARIANTS = "TypeOK C01_NoForgedCompletion C03_ExactlyOnceDelivery C05_WireOrderIsIdOrder C12_Signals C17_Bounded C18_ConnectFirst"
+INVARIANTS = "TypeOK C01_NoForgedCompletion C03_ExactlyOnceDelivery C05_WireOrderIsIdOrder C07_AckedOnlyIfReturned C12_Signals C17_Bounded C18_ConnectFirst"
 
 
 # Liveness of the design under fairness (small instances, no hist): (script, conns, dial, write, read, store, calls, properties)
@@ -226,7 +232,7 @@ LIVE_FOR = {"C01": ["live_one", "live_f4"], "C10": ["live_one", "live_f4"], "C11
 
 def tlc_liveness(ctx, name, dev=""):
     sc, conns, dial, write, read, store, calls, props = LIVE[name]
-    cfg = ("CONSTANTS Script <- %s AMax = 2 EMax = 2 MaxConns = %d DialFails = %d WriteFails = %d ReadFails = %d StoreFails = %d "
+    cfg = ("CONSTANTS Script <- %s InMsgs <- NoIn AMax = 2 EMax = 2 MaxConns = %d DialFails = %d WriteFails = %d ReadFails = %d StoreFails = %d "
            "MaxCalls = %d RecordHist = FALSE DEV_F4 = %s DEV_F6 = %s SampleK = 1\nSPECIFICATION LiveSpec\nPROPERTIES %s\nCHECK_DEADLOCK FALSE\n") % (
         sc, conns, dial, write, read, store, calls, "TRUE" if dev == "F4" else "FALSE", "TRUE" if dev == "F6" else "FALSE", props)
     cfgname = "MC_client_%s%s_gen.cfg" % (name, dev)
@@ -239,7 +245,7 @@ def tlc_behaviours(ctx, name, cap):
     """Model-checks one bounded instance (design-level result) and returns exported behaviours."""
     c = MC[name]
     k = c["k_quick"] if ctx.tier == "quick" else c["k_thorough"]
-    cfg = ("CONSTANTS Script <- %s AMax = %d EMax = %d MaxConns = %d DialFails = %d WriteFails = %d ReadFails = %d "
+    cfg = ("CONSTANTS Script <- %s InMsgs <- " + c.get("inmsgs", "NoIn") + " AMax = %d EMax = %d MaxConns = %d DialFails = %d WriteFails = %d ReadFails = %d "
            "StoreFails = %d MaxCalls = %d RecordHist = TRUE DEV_F4 = FALSE DEV_F6 = FALSE SampleK = %d\n"
            "SPECIFICATION Spec\nVIEW view\nINVARIANTS %s\nCHECK_DEADLOCK FALSE\nACTION_CONSTRAINT ExportStep\n") % (
         c["script"], c["amax"], c["emax"], c["conns"], c["dial"], c["write"], c["read"], c["store"], c["calls"], k, INVARIANTS)
@@ -264,7 +270,12 @@ def tlc_behaviours(ctx, name, cap):
     maximal = maximal[:cap]
     procs = {"rd": {"kind": "reader"}}
     for p, ops in script.items():
-        procs[p] = {"kind": "script", "ops": [{"m": o["m"], "tag": o["tag"], "size": 8, "filters": ["a/b"], "quit": "nil"} for o in ops]}
+        if ops:
+            procs[p] = {"kind": "script", "ops": [{"m": o["m"], "tag": o["tag"], "size": 8, "filters": ["a/b"], "quit": "nil"} for o in ops]}
+    for st in maximal:
+        for step in st:
+            if step.get("env") == "bsend":
+                step["pkt"].update({"topic": "in/t", "len": 8})
     ctx.cov["behaviours_exported"] = ctx.cov.get("behaviours_exported", 0) + len(cases)
     if k == 1 and len(maximal) == len([1 for _ in maximal]) and cap >= len(maximal):
         ctx.cov["exhaustive_configs"] = ctx.cov.get("exhaustive_configs", []) + [name]
